@@ -88,6 +88,35 @@ priority: 10
 '''
 MB_RULES = MA_RULES.replace('priority: 90', 'priority: 1').replace('priority: 10', 'priority: 90').replace('PWins', 'PLoses').replace('QLoses', 'QWins')
 
+# rules over a supplemental source: let / match / field / tag expressions that hand out whole rows, lists of rows and row values
+D_RULES = '''
+[Ordered]
+let: hits = [r for r in orders if r.amount == amount]
+match: len(hits) > 0 and contains("A")
+category: Ordered
+field: order = hits[0]
+field: every = hits
+field: src = orders
+field: when = hits[0].date
+tags: {hits[0].item}
+
+[OrderDay]
+match: len([r for r in orders if r.date == "2024-02-03"]) > 1 and contains("X")
+category: OrderDay
+tags: {[r.item for r in orders if r.amount > amount][0]}
+
+[Rest]
+match: contains("A")
+category: RestD
+'''
+
+
+def _rows():
+    from datetime import date
+    return {'orders': [{'amount': 3, 'item': 'cable', 'date': date(2024, 2, 3), 'qty': 2}, {'amount': 50, 'item': 'desk', 'date': date(2024, 2, 3), 'qty': 1},
+                       {'amount': 7, 'item': 'pen', 'date': date(2024, 3, 1), 'qty': 5}]}
+
+
 C_CSV = 'Pattern,Merchant,Category,Subcategory,Tags\\nA,MerchC,CatC,SubC,c\\nX\\\\d[amount>5],XD,CatXD,,\\n'
 
 EXPRS = ['regex("X\\\\d")', 'regex("X\\\\D")', 'regex("x\\\\d")', '(code := "7") == "7"', 'contains("A") and amount > 3', 'CONTAINS("a") and AMOUNT > 3']
@@ -103,7 +132,7 @@ def files():
         _FILES.update(json.loads(os.environ['VERIF_C07_FILES']))
     if not _FILES:
         d = tempfile.mkdtemp(prefix='verif_c07_')
-        for name, text in (('A.rules', A_RULES), ('B.rules', B_RULES), ('C.csv', C_CSV), ('MA.rules', MA_RULES), ('MB.rules', MB_RULES)):
+        for name, text in (('A.rules', A_RULES), ('B.rules', B_RULES), ('C.csv', C_CSV), ('MA.rules', MA_RULES), ('MB.rules', MB_RULES), ('D.rules', D_RULES)):
             p = os.path.join(d, name)
             with open(p, 'w') as f:
                 f.write(text.replace('\\\\', '\\').replace('\\n', '\n') if name == 'C.csv' else text.replace('\\\\', '\\'))
@@ -131,7 +160,7 @@ def _table_path():
             if fn.endswith('.py'):
                 with open(os.path.join(root, fn), 'rb') as f:
                     h.update(f.read())
-    h.update((A_RULES + B_RULES + C_CSV + MA_RULES + MB_RULES + repr(DESCS) + repr(MEMOS)).encode())
+    h.update((A_RULES + B_RULES + C_CSV + MA_RULES + MB_RULES + D_RULES + repr(_rows()) + repr(DESCS) + repr(MEMOS)).encode())
     d = os.path.join(tempfile.gettempdir(), 'verif_c07_table')
     os.makedirs(d, exist_ok=True)
     return os.path.join(d, h.hexdigest()[:16] + '.json')
@@ -142,7 +171,7 @@ import sys, json, os
 sys.path.insert(0, os.environ["VERIF_ROOT"])
 from harness import C07
 which, di, mi, ri = sys.argv[1], int(sys.argv[2]), int(sys.argv[3]), int(sys.argv[4])
-r = C07._digest(C07._classify(C07._load(which), C07.DESCS[di], C07.REGION_REPR[ri], C07.MEMOS[mi]))
+r = C07._digest(C07._classify(C07._load(which), C07.DESCS[di], C07.REGION_REPR[ri], C07.MEMOS[mi], rows=(C07._rows() if which == 'D' else None)))
 print(json.dumps(r))
 '''
 
@@ -158,6 +187,7 @@ def prepare(tier, seed):
         return path
     files()
     keys = [(w, di, mi, ri) for w in ['A', 'B', 'C', 'N', 'MA', 'MB'] for di in range(len(DESCS)) for mi in range(len(MEMOS)) for ri in range(3)]
+    keys += [('D', di, 0, ri) for di in range(len(DESCS)) for ri in range(3)]
 
     def one(k):
         env = dict(os.environ)
@@ -183,10 +213,11 @@ def _table():
         return json.load(f)
 
 
-def _classify(rules_ctx, desc, amount, memo):
+def _classify(rules_ctx, desc, amount, memo, rows=None):
     from tally import merchant_utils
     rules, transforms = rules_ctx
-    return merchant_utils.normalize_merchant(desc, rules, amount=amount, field=({'memo': memo} if memo is not None else {}), data_source='S', transforms=transforms)
+    kw = {'data_sources': rows} if rows is not None else {}
+    return merchant_utils.normalize_merchant(desc, rules, amount=amount, field=({'memo': memo} if memo is not None else {}), data_source='S', transforms=transforms, **kw)
 
 
 def _load(which, mode='first_match'):
@@ -273,6 +304,49 @@ def sequence(ops, final):
     return ob
 
 
+def _rows_snapshot(rows):
+    return [(name, [[(k, type(r[k]), r[k]) for k in sorted(r)] for r in lst]) for name, lst in sorted(rows.items())]
+
+
+def supplemental(n_before):
+    """Rules over a supplemental source (D.rules): n_before classifications whose let / field / tag expressions hand out whole rows,
+    lists of rows and the source itself, then classify t.  t's result is what a fresh interpreter gives with fresh rows, and the
+    rows are - item for item, type for type - what they were."""
+    table = _table()
+    files()
+
+    def ob(di: int, ri: int, d1: int, r1: int, r2: int) -> bool:
+        """
+        pre: 0 <= di < 3 and 0 <= ri < 3 and 0 <= d1 < 2 and 0 <= r1 < 3 and 0 <= r2 < 3
+        post: _
+        """
+        di, ri, r1 = (0, 1, 3)[pick(di, 3)], pick(ri, 3), pick(r1, 3)
+        if n_before == 1:
+            d1, r2 = pick(d1, 2), 0                      # only what is used is picked: every pick multiplies the paths
+        else:
+            d1, r2 = 0, pick(r2, 3)
+        from tally import merchant_utils
+        reset_tally_caches()
+        cur = _load('D')
+        rows = _rows()
+        snap = _rows_snapshot(rows)
+        kept = [list(lst) for lst in rows.values()]
+        before_rules = [tuple(str(x) for x in r[:4]) for r in cur[0]]
+        ok = True
+        hist = [(DESCS[d1], REGION_REPR[r1]), ('A', REGION_REPR[r2])][:n_before]
+        for (desc1, amount1) in hist:
+            got1 = _digest(_classify(cur, desc1, amount1, 'P', rows=rows))
+            ref1 = table['D-%d-0-%d' % (DESCS.index(desc1), REGION_REPR.index(amount1))]
+            ok = ok and got1 == (ref1[0], ref1[1], ref1[2], list(ref1[3]))
+        got = _digest(_classify(cur, DESCS[di], REGION_REPR[ri], 'P', rows=rows))
+        ref = table['D-%d-0-%d' % (di, ri)]
+        ok = ok and got == (ref[0], ref[1], ref[2], list(ref[3]))
+        ok = ok and _rows_snapshot(rows) == snap and all(len(a) == len(b) and all(x is y for x, y in zip(a, b)) for a, b in zip(kept, rows.values()))
+        ok = ok and [tuple(str(x) for x in r[:4]) for r in cur[0]] == before_rules
+        return post(ok)
+    return ob
+
+
 def fixtures_sane():
     """Vacuity guard for the fixtures themselves: the files disagree where they are meant to (concrete run)."""
     class Q:
@@ -331,6 +405,9 @@ def obligations(tier, seed):
     q = tier == 'quick'
     obs = [Obligation(id='fixtures-sane', factory='fixtures_sane', engine='smt', twin=False, timeout=60, group='fixtures',
                       bounds='the three rule files classify nine probe transactions differently as intended')]
+    for n in (1, 2):
+        obs.append(Obligation(id=f'supplemental-{n}', factory='supplemental', params={'n_before': n}, timeout=170 if q else 900, group='supplemental rows', replay_repeat=3,
+                              bounds=f'D.rules over 3 supplemental rows (dates, numbers, text): {n} earlier classification(s) with symbolic fixture indices, then classify t (3 descriptions x 3 amounts, symbolic indices); rows compared item for item and type for type'))
     for i, (ops, fin) in enumerate(sequences(tier, seed)):
         obs.append(Obligation(id=f'seq-{i:03d}-' + '-'.join(ops) + '-then-' + fin, factory='sequence', params={'ops': ops, 'final': fin},
                               timeout=120 if q else 900, group='history independence', replay_repeat=40,
